@@ -141,28 +141,38 @@ def _validate_v(args):
     return i, ok, r.generated, r.distinct, rej, stats
 
 
-def validate_visual(chk, traces, focus):
-    """One TLC run per recorded visual trace; a rejection is reported for `focus` only if a failed conjunct concerns it.
-    Returns the summed non-vacuity counters [loose, with claims, with a lost claim, fallback next to appearance,
-    continuations of a full gallery, features refused by the collect gate]."""
+def validate_visual_each(chk, traces):
+    """One TLC run per recorded visual trace; returns [(ok, failed conjuncts, rejection text, counters)] in order."""
     jobs = [(i, t, chk.workdir) for i, t in enumerate(traces)]
-    tot = [0, 0, 0, 0, 0, 0]
+    out = []
     with cf.ThreadPoolExecutor(max_workers=6) as ex:
         for i, ok, gen, dist, rej, stats in ex.map(_validate_v, jobs):
             chk.cov["states"] += dist
             chk.cov["transitions"] += gen
             chk.cov["traces_validated_against_impl"] += 1
-            tot = [a + b for a, b in zip(tot, stats)]
+            why = set()
             if not ok:
                 m = re.search(r'\\"why\\", \{([^}]*)\}', rej)
                 why = set(re.findall(r'\\"([a-z-]+)\\"', m.group(1))) if m else set()
-                props = set().union(*[WHY_PROPS.get(w, set()) for w in why]) if why else {"C01", "C02", "C03", "C04", "C12", "C13", "C20"}
-                if focus in props or not why:
-                    chk.violation(f"r2v:rejected:{'+'.join(sorted(why)) or 'unknown'}",
-                                  {"engine": "r2v-trace", "trace": str(traces[i]), "rejected": rej[:3000]})
-                else:
-                    chk.cov.setdefault("rejections_outside_focus", 0)
-                    chk.cov["rejections_outside_focus"] += 1
+            out.append((ok, why, rej, stats))
+    return out
+
+
+def validate_visual(chk, traces, focus):
+    """A rejection is reported for `focus` only if a failed conjunct concerns it.
+    Returns the summed non-vacuity counters [loose, with claims, with a lost claim, fallback next to appearance,
+    continuations of a full gallery, features refused by the collect gate]."""
+    tot = [0, 0, 0, 0, 0, 0]
+    for i, (ok, why, rej, stats) in enumerate(validate_visual_each(chk, traces)):
+        tot = [a + b for a, b in zip(tot, stats)]
+        if not ok:
+            props = set().union(*[WHY_PROPS.get(w, set()) for w in why]) if why else {"C01", "C02", "C03", "C04", "C12", "C13", "C20"}
+            if focus in props or not why:
+                chk.violation(f"r2v:rejected:{'+'.join(sorted(why)) or 'unknown'}",
+                              {"engine": "r2v-trace", "trace": str(traces[i]), "rejected": rej[:3000]})
+            else:
+                chk.cov.setdefault("rejections_outside_focus", 0)
+                chk.cov["rejections_outside_focus"] += 1
     return tot
 
 
